@@ -696,6 +696,7 @@ func RunC08(col *core.Collector, tier, variant string, seed uint64, shard, nshar
 			col.Violation(core.Violation{Property: "C08", Signature: "burst:" + sigText(v), Detail: v + fmt.Sprintf(" (burst %+v)", cfg), Replay: path})
 		}
 		b.cache.StopAllGoroutines()
+		b.cache = nil
 		if col.NumViolations() >= 6 {
 			break
 		}
